@@ -81,7 +81,7 @@ void updateBaseUnitCount(const ModelPtr &model,
                          std::map<std::string, double> &unitMap,
                          double &multiplier,
                          const std::string &uName,
-                         double uExp, double logMult, int direction);
+                         double uExp, double logMult, int direction, size_t depth = 0);
 
 /**
  * @brief Validate the provided @p name is a valid CellML identifier.
@@ -2550,8 +2550,12 @@ void updateBaseUnitCount(const ModelPtr &model,
                          double &multiplier,
                          const std::string &uName,
                          double uExp, double logMult,
-                         int direction)
+                         int direction, size_t depth)
 {
+    if (depth > model->unitsCount()) {
+        // A chain of references longer than the number of units in the model is a cycle (reported elsewhere).
+        return;
+    }
     if (model->hasUnits(uName)) {
         UnitsPtr u = model->units(uName);
         if (u->isBaseUnit()) {
@@ -2571,7 +2575,7 @@ void updateBaseUnitCount(const ModelPtr &model,
                 u->unitAttributes(i, ref, pre, exp, expMult, id);
                 mult = std::log10(expMult);
                 if (!isStandardUnitName(ref)) {
-                    updateBaseUnitCount(model, unitMap, multiplier, ref, exp * uExp, logMult + mult * uExp + convertPrefixToInt(pre) * uExp, direction);
+                    updateBaseUnitCount(model, unitMap, multiplier, ref, exp * uExp, logMult + mult * uExp + convertPrefixToInt(pre) * uExp, direction, depth + 1);
                 } else {
                     for (const auto &iter : standardUnitsList.at(ref)) {
                         unitMap.at(iter.first) += direction * (iter.second * exp * uExp);
